@@ -21,15 +21,16 @@ CLAIM = dict(
           "out-of-range indexing; repaired code: fixes/C03-1..4, C05-1..3, C13-1): C05_total - compiling ANY code-point sequence "
           "with fuel 16*length+64 never runs out of fuel, via C05_progress (every production, from any parser state, either "
           "raises or does not increase the measure 'characters not yet lexed', and every consumer that parseItemListBlock "
-          "iterates consumes at least one token) and C05_next_token_progress (the lexer); C05_display_never_crashes and "
+          "iterates consumes at least one token) and C05_next_token_progress (the lexer); C05_single_error_in_range - every syntax error carries a cursor with 0 <= cursor <= length, for every "
+          "source and fuel (position invariant through the line bookkeeping, the comment scanner, the C04 recognisers, the C13 string "
+          "machine and all 40 productions; the bound is attained); C05_display_never_crashes and "
           "C05_quotes_existing_line - rendering an error never indexes out of range for any source / line table / cursor and "
           "quotes a break-free piece of the source that starts at a recorded line start and ends at a line break or the end "
           "of text. Tied to the code on every run: arbitrary Unicode inputs (controls, unbalanced quotes/brackets/backticks, "
           "mixed indentation, lone CR, U+0000), truncation at every offset and token/line mutations of generated programs "
           "go through syntax.Parser.Compile + exec.DisplayError under a watchdog; outcome (tree | code, cursor), rendered line, "
           "line number and mark column must equal the models'; exec.ExecVarInputText must return a map or an error."),
-    note=TB + ("NOT proved, correspondence only: 0 <= cursor <= length for every error (checked on every generated input and "
-               "compared with the model's cursor); that line starts recorded by the lexer follow a line break (hypothesis-free "
+    note=TB + ("NOT proved, correspondence only: that line starts recorded by the lexer follow a line break (hypothesis-free "
                "form of 'quotes an existing line'); ExecVarInputText (its evaluator is the C10 model's subject). 'Promptly' is a "
                "linear fuel bound, wall-clock time is only observed by the watchdog. String scanning is the C13 model "
                "(ps_loop_shape reused), token recognisers the C04 model (vendored copy model/LexerTok.v)."),
